@@ -66,4 +66,10 @@ CLAIMED['C03'] = dict(
     technique='CrossHair-engine symbolic execution of Importer.run/exporter/listener callbacks on symbolic strings (stubbed parser) + z3-enumerated slot grids classified by the real parser, against an independent cell model',
     design='5 C03')
 
+CLAIMED['C01'] = dict(
+    text=BMC + 'C01: (c) the ordering / de-duplication lemma is executed on the REAL listener callbacks and NoteRestToken.export with SYMBOLIC payload strings (two decoration texts, duration, pitch and alteration texts chosen by z3) in every delivery script, repetition pattern and both delivery orders; (a) token fixed point through kern and through ekern -> get_kern_from_ekern over slot grids classified by the current parser; (b) canonicity over all ordered pairs of the canonical signifier alphabet (derived by pairwise probing of the parser) x position pairs x repetition patterns; (d, e) document fixed point over pool documents with inserted null rows / comments and over spine-operator layouts with 1-4 spines of all supported types.',
+    note=NOTE + 'ANTLR receives concrete text only. Two open known findings (signifier containing the separator character; rest inside a chord inheriting other notes\' signifiers). The extended round trip of non-kern spines is outside the claim.',
+    technique='CrossHair-engine symbolic execution of listener callbacks + NoteRestToken.export on symbolic strings; z3-enumerated slot grids / signifier pairs / layouts through the real import-export pipeline',
+    design='5 C01')
+
 PENDING_REASON = 'check under construction in this session (to be claimed; see DESIGN.md section 5)'
